@@ -81,7 +81,7 @@ def N(v):
 
 def cpython_slices(ctx, model, rng):
     """K: Model/Emul.sliceIndices / pyRange vs CPython's slice.indices / range"""
-    for _ in range(400 if ctx.quick else 20000):
+    for _ in range(ctx.n(400, 20000)):
         L = int(rng.integers(0, 12))
         a, b = (int(x) for x in rng.integers(-L - 3, L + 4, size=2))
         st = int(rng.choice([1, 2, 3, -1, -2, -3, 5, 0])) if rng.random() < .9 else 0
@@ -159,7 +159,7 @@ def run(ctx):
     model = core.Model()
     try:
         cpython_slices(ctx, model, rng)
-        for k in range(16 if ctx.quick else 300):
+        for k in range(ctx.n(16, 300)):
             n = (int(rng.integers(3, 8)), int(rng.integers(3, 8)), int(rng.integers(3, 12)))
             arr = gen.cube(rng, n)
             il0, xl0 = int(rng.integers(1, 60)), int(rng.integers(1, 600))
